@@ -28,9 +28,12 @@ PROBES = [
     {"n": 3, "cuts": [5], "corrupt": [], "ignore": True, "eofdata": False},
     {"n": 3, "cuts": [], "corrupt": [], "ignore": False, "eofdata": True},
     {"n": 3, "cuts": [16], "corrupt": [2], "ignore": True, "eofdata": False},
-    # both corruption styles (undecodable bytes / invalid header field) for each flag, full reads
+    # the three corruption styles (undecodable bytes / early invalid header field / last validated header field
+    # invalid; the style is chosen by (case index + record) mod 3) for each flag, full reads
     {"n": 3, "cuts": [], "corrupt": [2], "ignore": False, "eofdata": False},
     {"n": 3, "cuts": [], "corrupt": [2], "ignore": False, "eofdata": False},
+    {"n": 3, "cuts": [], "corrupt": [2], "ignore": False, "eofdata": False},
+    {"n": 3, "cuts": [], "corrupt": [1, 3], "ignore": True, "eofdata": False},
     {"n": 3, "cuts": [], "corrupt": [1, 3], "ignore": True, "eofdata": False},
     {"n": 3, "cuts": [], "corrupt": [1, 3], "ignore": True, "eofdata": False},
 ]
@@ -109,7 +112,7 @@ def run(ck):
     for m in models:
         m.join()
     ck.assumptions += [
-        "corruption (length field intact) = the first 8 data bytes overwritten with 0xFF (not a protobuf message) or one byte of the owner ID flipped (valid protobuf, header validation fails after the object is partly filled in): such a record does not unmarshal",
+        "corruption (length field intact) = the first 8 data bytes overwritten with 0xFF (not a protobuf message) or one byte of the owner ID flipped or the second attribute key made a duplicate of the first (valid protobuf, header validation fails early / at its very end, after the object is filled in): such a record does not unmarshal",
         "random byte-level cuts are projected onto the unit boundaries of the segment they fall in (the model's outcome depends only on which segment a Read boundary falls in)",
         "while H4 is present the reader aborts a restore that has lost the framing (otherwise it allocates up to 4 GiB per garbage length); the model stops predicting at that point",
         "protobuf decoding is trusted: an intact record decodes, a corrupted one does not",
